@@ -309,6 +309,13 @@ Example C18_check_alloc_rejects_F24 :
   alloc_steps 0 (model_moves true 2 [] [3; 120]) [Some true; None] = ([], [0]).
 Proof. vm_compute. repeat split; reflexivity. Qed.
 
+(* The reference (logical) object handed over by the harness is checked for well-formedness by
+   the extracted lobj_wfb before anything is compared with it (hypothesis lobj_wf of the theorems
+   about check_C18 / model_obs): it decides lobj_wf. *)
+Theorem C18_reference_object_wf_decided :
+  forall (T : Type) (o : @lobj T), lobj_wfb o = true <-> lobj_wf o.
+Proof. intros T o. exact (lobj_wfb_iff o). Qed.
+
 (* The cells of a StripedScores view past len() (review finding C18-1).  The view has the shape
    (C, R) of the whole striped score matrix: R*C cells in position order p = c*R + r, while
    len() = L+1-M.  For the logical scoring function [score] of the case (score p = the score of
